@@ -121,7 +121,9 @@ func (e *fnEnc) calleeName(cc *ssa.CallCommon) (string, *types.Signature) {
 		return canonFuncName("(" + types.TypeString(recv, nil) + ")." + cc.Method.Name()), cc.Method.Type().(*types.Signature)
 	}
 	if f := cc.StaticCallee(); f != nil {
-		return canonFuncName(f.String()), f.Signature
+		// a method expression T.m is called through a synthetic thunk with the
+		// receiver as first parameter: the method's contract applies as it stands
+		return strings.TrimSuffix(canonFuncName(f.String()), "$thunk"), f.Signature
 	}
 	return "", cc.Signature()
 }
